@@ -25,7 +25,7 @@ LEVEL_NOTE = ('Table values from fixed + seed-derived alphabets. A request withi
 RULE = ("cases: (interpolator, n_ap, spacing, n_models, table unit); executions: one call per (request set, request unit), one evaluation per returned cell; non-trivial = distinct "
         "(case, request set, unit) with n_ap >= 2")
 ASSUMPTIONS = ["tables strictly increasing in aperture with ratio >= 1.05", "finite value alphabets"]
-REQUIRED_CLASSES = ['spectrum-of-100-wavelengths-or-more', 'table-with-a-non-finite-cell', 'error-in-other-unit', 'history-interpolate-after-change', 'on-knot', 'inside-segment', 'beyond-table', 'below-refused', 'single-aperture-repeated', 'other-unit', 'bare-numbers', 'mixture', 'single-element',
+REQUIRED_CLASSES = ['sed-aperture-table-in-other-unit', 'spectrum-of-100-wavelengths-or-more', 'table-with-a-non-finite-cell', 'error-in-other-unit', 'history-interpolate-after-change', 'on-knot', 'inside-segment', 'beyond-table', 'below-refused', 'single-aperture-repeated', 'other-unit', 'bare-numbers', 'mixture', 'single-element',
                     'variable-at-filter-wavelength', 'variable-above-table', 'variable-on-largest-knot', 'conv', 'sed', 'sed-variable']
 TIMEOUT = {'quick': 300, 'thorough': 1200}
 
@@ -228,10 +228,14 @@ def _sed(ctx, case, rec):
         s.distance = 1 * u.kpc
         s.wav = (2.0 ** np.arange(n_wav))[::-1] * u.micron
         s.nu = s.wav.to(u.Hz, equivalencies=u.spectral())
-        s.apertures = ap * u.au
+        # the SED's own aperture table may be kept in another length unit (bare requests are AU whatever the table's unit)
+        s.apertures = (ap * u.au).to(tab_unit)
         s.flux = vals.T * u.mJy
         s.error = vals.T * 0.1 * u.mJy
         return s
+    tab_unit = [u.au, u.pc, u.cm][(n_ap + n_wav) % 3]
+    if tab_unit != u.au:
+        rec.cls('sed-aperture-table-in-other-unit')
     for sname, req in _request_sets(ap).items():
         for form in ('bare', 'AU', 'pc'):
             s = mk()
@@ -257,7 +261,7 @@ def _sed(ctx, case, rec):
                     rec.cls('below-refused')
                 continue
             if r is None:
-                if form == 'pc' and n_ap > 1 and abs(req[0] - ap[0]) < 1e-9 * ap[0] and 'small' in str(exc):
+                if (form == 'pc' or tab_unit != u.au) and n_ap > 1 and min(abs(x - ap[0]) for x in req) < 1e-12 * ap[0] and 'small' in str(exc):          # a knot request one ulp below the table after a unit round trip
                     rec.notes['conformant-refusal-within-4ulp-of-smallest'] += 1
                     continue
                 rec.violation('sed|exception|%s' % form, sub, {'type': type(exc).__name__, 'msg': str(exc)[:200], 'requested_au': req, 'table_au': ap})
